@@ -256,6 +256,10 @@ def check_config(cfg, counters, viols, case_of):
                 add('C19:wrong-loop@%s' % _klass(cfg), '%r: node.loop is %s, expected %s (asynchronous=%r)' % (cfg, lk, exp[1], n.asynchronous))
             if exp[2] is not None and bool(n.asynchronous) != bool(exp[2]):
                 add('C19:wrong-mode@%s' % _klass(cfg), '%r: node.asynchronous=%r, expected %r' % (cfg, n.asynchronous, exp[2]))
+            elif exp[2] is False and n.asynchronous is None and cfg[0] in ('blocking', 'fallback', 'fallback_sib', 'fallback_src'):
+                # the pipeline it extends is a blocking one: that is inherited like the loop is, not left undecided
+                add('C19:blocking-mode-not-inherited@%s' % _klass(cfg), '%r: the pipeline is blocking (asynchronous=False), the new node has '
+                    'asynchronous=None (its loop: %s)' % (cfg, lk))
             # one loop per pipeline + mode agreement
             if n.loop is not None:
                 for m in nodes[:-1]:
